@@ -797,6 +797,12 @@ func (w *_assembler) BeginList(sizeHint int64) (datamodel.ListAssembler, error) 
 		// we should be able to safely assume we're dealing with a Go slice here,
 		// so _listAssembler can append to that
 		val := w.createNonPtrVal()
+		if val.Kind() == reflect.Slice && val.IsNil() {
+			// An empty list must not be left as a nil slice: where the slice
+			// itself stands for an optional or nullable list, nil means
+			// absent or null.
+			val.Set(reflect.MakeSlice(val.Type(), 0, 0))
+		}
 		return &_listAssembler{
 			cfg:        w.cfg,
 			schemaType: typ,
@@ -1093,6 +1099,11 @@ func (w *_assembler) AssignBytes(p []byte) error {
 			// Any means the Go type must receive a datamodel.Node
 			w.createNonPtrVal().Set(reflect.ValueOf(basicnode.NewBytes(p)))
 		} else {
+			if p == nil {
+				// Keep empty bytes apart from nil, which means absent or
+				// null where the slice stands for optional or nullable bytes.
+				p = []byte{}
+			}
 			w.createNonPtrVal().SetBytes(p)
 		}
 	}
